@@ -5,7 +5,8 @@ one is analysed exactly as it stands, so a behaviour-changing edit is never hidd
 of the rewrites below is unsound.  Rewrites (each applied to BOTH sides):
 
   R1  docstrings / pass / bare constants dropped
-  R2  `for j in range(<int literal(s)>)` with at most 8 iterations, no break/continue and no store to j: unrolled
+  R2  `for j in range(<int literal(s)>)` or `for a, (b, c) in (<literal tuples>)` with at most 8 iterations, no
+      break/continue and no store to the loop variables: unrolled
   R3  integer constant folding of + - * // % on literals (after unrolling)
   R4  `a, b = x, y` split into `a = x; b = y` when no target is read by the values
   R5  `x = <literal>; ...; if c: x = B` (c does not read x)  ->  `if c: x = B else: x = <literal>`
@@ -36,6 +37,17 @@ of the rewrites below is unsound.  Rewrites (each applied to BOTH sides):
       + - * over names, literals and opaque atoms rewritten as a sorted sum of products
   R18 a local whose every read inside an outermost loop body is preceded, in that same iteration, by a write
       (no loop-carried or loop-escaping value) is renamed apart per loop
+  R19 `T op= v` with T a subscript whose index is side-effect free  ->  `T = T op v` (same location is stored)
+  R20 x + 0, x - 0, x * 1 on integer literals dropped; (a + c1) + c2 -> a + (c1 + c2) inside subscripts
+  R21 a local all of whose bindings are plain assignments at the top level of ONE block, that is not used outside
+      that block and (in a loop body) is bound before its first use: each binding gets its own name
+  R23 in a loop body, `if c: A; continue` followed by the rest R of the body  ->  `if c: A else: R`
+  R24 `x = [E for v in it]`  ->  `x = []; for v in it: x += [E]`;  `x.append(E)`  ->  `x += [E]` for x bound to a list display
+  R25 keyword arguments that repeat a documented default are dropped (np.searchsorted side='left', ...)
+  R26 `A[slice(a, b)]`  ->  `A[a:b]`
+  R27 `if a: X elif b: Y` with X ending in continue / break / return / raise  ->  `if a: X` followed by `if b: Y`
+  R28 `t = E` directly followed by the only statement that reads t, a simple statement without any other call:
+      E is substituted even when it has effects (the evaluation order is unchanged)
   R14 `if a: X` directly followed by `if b: X` where X ends in continue / break / return / raise, and
       `if a: X elif b: X`:  ->  `if a or b: X`
 
@@ -120,6 +132,19 @@ def is_pure(e):
             return True
         return False
     return False
+
+
+SCALAR_CALLS = {'len', 'int', 'float', 'abs', 'min', 'max', 'bool', 'str', 'slice', 'dtype', 'itype', 'ftype', 'np.int8', 'np.int16', 'np.int32',
+                'np.int64', 'np.uint8', 'np.uint16', 'np.uint32', 'np.uint64', 'np.float32', 'np.float64', 'np.intp', 'np.sqrt', 'np.floor', 'math.sqrt'}
+
+
+def _cheap(e):
+    """No array-building calls: in directional mode only such values are substituted (an expression that builds a
+    table is better left under its name: the analyses recognise tables by their definitions)."""
+    for n in ast.walk(e):
+        if isinstance(n, ast.Call) and not isinstance(n.func, ast.Lambda) and dotted(n.func) not in SCALAR_CALLS:
+            return False
+    return True
 
 
 def names_loaded(e):
@@ -339,6 +364,16 @@ class _Fold(ast.NodeTransformer):
     def visit_BinOp(self, n):
         self.generic_visit(n)
         a, b = n.left, n.right
+        if isinstance(b, ast.Constant) and type(b.value) is int and not (isinstance(a, ast.Constant) and type(a.value) is int):
+            if b.value == 0 and isinstance(n.op, (ast.Add, ast.Sub)):
+                return a
+            if b.value == 1 and isinstance(n.op, (ast.Mult, ast.FloorDiv)):
+                return a
+        if isinstance(a, ast.Constant) and type(a.value) is int and not (isinstance(b, ast.Constant) and type(b.value) is int):
+            if a.value == 0 and isinstance(n.op, ast.Add):
+                return b
+            if a.value == 1 and isinstance(n.op, ast.Mult):
+                return b
         if isinstance(a, ast.Constant) and isinstance(b, ast.Constant) and type(a.value) is int and type(b.value) is int:
             try:
                 if isinstance(n.op, ast.Add):
@@ -380,7 +415,7 @@ class _Fold(ast.NodeTransformer):
 
     def visit_Subscript(self, n):
         self.generic_visit(n)
-        n.slice = _index_canon(n.slice)
+        n.slice = _index_canon(_slice_call(n.slice))
         return n
 
     def visit_Compare(self, n):
@@ -391,6 +426,7 @@ class _Fold(ast.NodeTransformer):
 
     def visit_Call(self, n):
         self.generic_visit(n)
+        _call_defaults(n)
         if all(k.arg is not None for k in n.keywords):
             n.keywords = sorted(n.keywords, key=lambda k: k.arg)
         if dotted(n.func) in ('range', 'numba.prange', 'nb.prange', 'prange'):
@@ -410,6 +446,67 @@ def _or(a, b):
     return ast.BoolOp(op=ast.Or(), values=list(va) + list(vb))
 
 
+KNOWN_DEFAULTS = {('np.searchsorted', 'side'): 'left', ('np.linalg.norm', 'keepdims'): False, ('np.sum', 'axis'): None,
+                  ('np.empty', 'order'): 'C', ('np.zeros', 'order'): 'C', ('np.argsort', 'axis'): -1, ('np.diff', 'n'): 1, ('np.cumsum', 'axis'): None}
+
+
+def _call_defaults(n):
+    d = dotted(n.func)
+    n.keywords = [k for k in n.keywords if not (k.arg is not None and (d, k.arg) in KNOWN_DEFAULTS and isinstance(k.value, ast.Constant)
+                                                and k.value.value == KNOWN_DEFAULTS[(d, k.arg)] and type(k.value.value) is type(KNOWN_DEFAULTS[(d, k.arg)]))]
+    return n
+
+
+def _slice_call(sl):
+    if isinstance(sl, ast.Call) and dotted(sl.func) == 'slice' and not sl.keywords and 1 <= len(sl.args) <= 3:
+        a = list(sl.args)
+        none = lambda x: None if isinstance(x, ast.Constant) and x.value is None else x
+        if len(a) == 1:
+            return ast.Slice(lower=None, upper=none(a[0]), step=None)
+        return ast.Slice(lower=none(a[0]), upper=none(a[1]), step=none(a[2]) if len(a) == 3 else None)
+    return sl
+
+
+class _LightFold(ast.NodeTransformer):
+    def visit_Call(self, n):
+        self.generic_visit(n)
+        return _call_defaults(n)
+
+    """Constant folding only (R3, R20); leaves comparisons, keywords and operand order alone."""
+    def visit_BinOp(self, n):
+        self.generic_visit(n)
+        a, b = n.left, n.right
+        ia = isinstance(a, ast.Constant) and type(a.value) is int
+        ib = isinstance(b, ast.Constant) and type(b.value) is int
+        if ia and ib:
+            return _Fold().visit_BinOp(n)
+        if ib and b.value == 0 and isinstance(n.op, (ast.Add, ast.Sub)):
+            return a
+        if ia and a.value == 0 and isinstance(n.op, ast.Add):
+            return b
+        if ib and b.value == 1 and isinstance(n.op, (ast.Mult, ast.FloorDiv)):
+            return a
+        if ia and a.value == 1 and isinstance(n.op, ast.Mult):
+            return b
+        # (x + c1) + c2  ->  x + (c1 + c2)   (integers: exact)
+        if ib and isinstance(n.op, (ast.Add, ast.Sub)) and isinstance(a, ast.BinOp) and isinstance(a.op, (ast.Add, ast.Sub)) \
+                and isinstance(a.right, ast.Constant) and type(a.right.value) is int and getattr(self, 'in_index', 0):
+            c1 = a.right.value if isinstance(a.op, ast.Add) else -a.right.value
+            c2 = b.value if isinstance(n.op, ast.Add) else -b.value
+            c = c1 + c2
+            if c == 0:
+                return a.left
+            return ast.BinOp(left=a.left, op=ast.Add() if c > 0 else ast.Sub(), right=ast.Constant(abs(c)))
+        return n
+
+    def visit_Subscript(self, n):
+        n.value = self.visit(n.value)
+        self.in_index = getattr(self, 'in_index', 0) + 1
+        n.slice = _slice_call(self.visit(n.slice))
+        self.in_index -= 1
+        return n
+
+
 def _index_canon(e):
     """Canonical form of integer index arithmetic (R17)."""
     if isinstance(e, ast.Tuple):
@@ -417,6 +514,8 @@ def _index_canon(e):
     if isinstance(e, ast.Slice):
         return ast.Slice(lower=_index_canon(e.lower) if e.lower else None, upper=_index_canon(e.upper) if e.upper else None,
                          step=_index_canon(e.step) if e.step else None)
+    if isinstance(e, ast.BinOp) and isinstance(e.op, (ast.FloorDiv, ast.Mod)):
+        return ast.BinOp(left=_index_canon(e.left), op=e.op, right=_index_canon(e.right))
     if not (isinstance(e, ast.BinOp) and isinstance(e.op, (ast.Add, ast.Sub, ast.Mult))):
         return e
     from .poly import Poly
@@ -480,6 +579,29 @@ def _range_literal(it):
     return None
 
 
+def _literal_items(it, target):
+    """for <target> in (<literal>, ...): list of {name: Constant} substitutions, or None."""
+    if not isinstance(it, (ast.Tuple, ast.List)) or not (1 <= len(it.elts) <= MAX_UNROLL):
+        return None
+
+    def bind(t, v, m):
+        if isinstance(t, ast.Name):
+            if isinstance(v, ast.Constant) or (isinstance(v, ast.UnaryOp) and isinstance(v.operand, ast.Constant)):
+                m[t.id] = v
+                return True
+            return False
+        if isinstance(t, (ast.Tuple, ast.List)) and isinstance(v, (ast.Tuple, ast.List)) and len(t.elts) == len(v.elts):
+            return all(bind(a, b, m) for a, b in zip(t.elts, v.elts))
+        return False
+    out = []
+    for v in it.elts:
+        m = {}
+        if not bind(target, v, m):
+            return None
+        out.append(m)
+    return out
+
+
 def _has_exit(stmts):
     for s in stmts:
         for n in ast.walk(s):
@@ -491,18 +613,35 @@ def _has_exit(stmts):
 class Normaliser:
     _fresh = 0
 
-    def __init__(self, funcs=None, depth=0):
+    @staticmethod
+    def _strip_copy(fn):
+        return copy.deepcopy(fn)
+
+    def __init__(self, funcs=None, depth=0, keep_ids=None):
         self.al = None
         self.funcs = dict(funcs or {})     # helpers that may be inlined (R13): name -> FunctionDef
         self.depth = depth
         self.caller_bound = set()
+        # directional mode (keep_ids is not None): only entities that the reviewed function does not have
+        # (new locals, new helpers, new constant loops) are eliminated; everything else is left as written
+        self.keep_ids = keep_ids
+        self.inlined = set()
+        self.opts = {}
+
+    @property
+    def directional(self):
+        return self.keep_ids is not None
+
+    def is_new(self, name):
+        return self.keep_ids is None or name not in self.keep_ids
 
     # --------------------------------------------------------------- R13
     def try_inline(self, s):
         if self.depth > 3:
             return None
-        if isinstance(s, ast.Assign) and len(s.targets) == 1 and isinstance(s.targets[0], ast.Name) and isinstance(s.value, ast.Call):
-            call, mode, tgt = s.value, 'assign', s.targets[0].id
+        if isinstance(s, ast.Assign) and len(s.targets) == 1 and isinstance(s.value, ast.Call) and \
+                (isinstance(s.targets[0], (ast.Name, ast.Tuple)) or (isinstance(s.targets[0], ast.Subscript) and is_pure(s.targets[0]))):
+            call, mode, tgt = s.value, 'assign', s.targets[0]
         elif isinstance(s, ast.Expr) and isinstance(s.value, ast.Call):
             call, mode, tgt = s.value, 'expr', None
         elif isinstance(s, ast.Return) and isinstance(s.value, ast.Call):
@@ -532,7 +671,7 @@ class Normaliser:
             m.setdefault(p_, d)
         if set(m) != set(params) or not all(is_pure(v) for v in m.values()):
             return None
-        inner = Normaliser({k: v for k, v in self.funcs.items() if k != g.name}, self.depth + 1)
+        inner = Normaliser({k: v for k, v in self.funcs.items() if k != g.name}, self.depth + 1, set() if self.directional else None)
         gn = inner.function(g)
         body = gn.body
         gbound = _bound_in(gn)
@@ -564,7 +703,7 @@ class Normaliser:
 
         def result(e):
             if mode == 'assign':
-                return [ast.Assign(targets=[ast.Name(id=tgt, ctx=ast.Store())], value=e if e is not None else ast.Constant(None))]
+                return [ast.Assign(targets=[copy.deepcopy(tgt)], value=e if e is not None else ast.Constant(None))]
             if mode == 'return':
                 return [ast.Return(value=e)]
             return [] if e is None or is_pure(e) else [ast.Expr(value=e)]
@@ -620,6 +759,7 @@ class Normaliser:
             return None
         if not returned:
             new = new + result(None)
+        self.inlined.add(g.name)
         return new
 
     # --------------------------------------------------------------- blocks, bottom-up structural rewrites
@@ -628,10 +768,51 @@ class Normaliser:
         out = []
         for s in stmts:
             out.extend(self.stmt(s))
-        out = self.defaults_to_ifelse(out)
-        out = self.flatten_ifs(out)
-        out = self.merge_ifs(out)
+        out = self.split_elif_after_exit(out)
+        out = self.expand_listcomp(out)
+        if not self.directional:
+            out = self.defaults_to_ifelse(out)
+            out = self.flatten_ifs(out)
+            out = self.merge_ifs(out)
         return out
+
+    def split_elif_after_exit(self, stmts):
+        if self.directional and not self.opts.get('split_elif'):
+            return stmts
+        out = []
+        for s in stmts:
+            while isinstance(s, ast.If) and s.body and isinstance(s.body[-1], (ast.Continue, ast.Break, ast.Return, ast.Raise)) \
+                    and len(s.orelse) == 1 and isinstance(s.orelse[0], ast.If):
+                out.append(ast.If(test=s.test, body=s.body, orelse=[]))
+                s = s.orelse[0]
+            out.append(s)
+        return out
+
+    def expand_listcomp(self, stmts):
+        out = []
+        for s in stmts:
+            if isinstance(s, ast.Assign) and len(s.targets) == 1 and isinstance(s.targets[0], ast.Name) and isinstance(s.value, ast.ListComp) \
+                    and len(s.value.generators) == 1 and not s.value.generators[0].ifs and not s.value.generators[0].is_async \
+                    and (not self.directional or s.targets[0].id in self.opts.get('list_names', ())):
+                x = s.targets[0].id
+                g = s.value.generators[0]
+                if x not in names_loaded(s.value):
+                    out.append(ast.Assign(targets=[ast.Name(id=x, ctx=ast.Store())], value=ast.List(elts=[], ctx=ast.Load())))
+                    out.append(ast.For(target=g.target, iter=g.iter, orelse=[], body=[
+                        ast.AugAssign(target=ast.Name(id=x, ctx=ast.Store()), op=ast.Add(), value=ast.List(elts=[s.value.elt], ctx=ast.Load()))]))
+                    continue
+            out.append(s)
+        return out
+
+    def loop_continue_to_else(self, body):
+        """R23 (applied to the statement list of a loop body)."""
+        for i, s in enumerate(body):
+            if isinstance(s, ast.If) and not s.orelse and s.body and isinstance(s.body[-1], ast.Continue) and i < len(body) - 1:
+                rest = self.loop_continue_to_else(body[i + 1:])
+                if any(isinstance(n, (ast.Continue,)) for st in s.body[:-1] for n in ast.walk(st)):
+                    return body
+                return body[:i] + [ast.If(test=s.test, body=s.body[:-1] or [ast.Pass()], orelse=rest)]
+        return body
 
     def flatten_ifs(self, stmts):
         out = []
@@ -670,17 +851,78 @@ class Normaliser:
             out.append(s)
         return out
 
+    def single_expr_helper(self, name):
+        """(params, defaults, body expression) when helper `name` normalises to a single `return E`."""
+        cache = self.__dict__.setdefault('_seh', {})
+        if name not in cache:
+            cache[name] = None
+            g = self.funcs.get(name)
+            ok = g is not None and not (g.args.vararg or g.args.kwarg or g.args.kwonlyargs)
+            if ok:
+                for d in g.decorator_list:
+                    if dotted(d.func if isinstance(d, ast.Call) else d).split('.')[-1] not in ('njit', 'jit'):
+                        ok = False
+            if ok and self.depth <= 3:
+                gn = Normaliser({k: v for k, v in self.funcs.items() if k != name}, self.depth + 1, set() if self.directional else None).function(g)
+                if len(gn.body) == 1 and isinstance(gn.body[0], ast.Return) and gn.body[0].value is not None:
+                    params = [x.arg for x in gn.args.posonlyargs + gn.args.args]
+                    free = names_loaded(gn.body[0].value) - set(params)
+                    if not (free & self.caller_bound):
+                        cache[name] = (gn.args, gn.body[0].value)
+        return cache[name]
+
+    def inline_exprs(self, s):
+        outer = self
+
+        class _IE(ast.NodeTransformer):
+            def visit_Call(self_, n):
+                self_.generic_visit(n)
+                if isinstance(n.func, ast.Name) and n.func.id in outer.funcs:
+                    h = outer.single_expr_helper(n.func.id)
+                    if h is not None:
+                        lam = ast.Lambda(args=h[0], body=copy.deepcopy(h[1]))
+                        r = _Beta().visit_Call(ast.Call(func=lam, args=n.args, keywords=n.keywords))
+                        if not (isinstance(r, ast.Call) and isinstance(r.func, ast.Lambda)):
+                            outer.inlined.add(n.func.id)
+                            return r
+                return n
+        return _IE().visit(s)
+
     def stmt(self, s):
+        if self.funcs and not isinstance(s, (ast.FunctionDef, ast.AsyncFunctionDef, ast.ClassDef, ast.For, ast.While, ast.If, ast.With, ast.Try)):
+            s = self.inline_exprs(s)
+        elif self.funcs and isinstance(s, (ast.For, ast.While, ast.If)):
+            if isinstance(s, ast.For):
+                s.iter = self.inline_exprs(s.iter)
+            else:
+                s.test = self.inline_exprs(s.test)
+        if self.funcs and isinstance(s, ast.AugAssign) and isinstance(s.value, ast.Call) and isinstance(s.value.func, ast.Name) \
+                and s.value.func.id in self.funcs:
+            Normaliser._fresh += 1
+            tmp = f'{s.value.func.id}__ret{Normaliser._fresh}'
+            first = ast.Assign(targets=[ast.Name(id=tmp, ctx=ast.Store())], value=s.value)
+            inl = self.try_inline(first)
+            if inl is not None:
+                out = []
+                for t in inl:
+                    t._from_inline = True
+                    out.extend(self.stmt(t))
+                out.append(ast.AugAssign(target=s.target, op=s.op, value=ast.Name(id=tmp, ctx=ast.Load())))
+                return out
         if self.funcs and isinstance(s, (ast.Assign, ast.Expr, ast.Return)):
             inl = self.try_inline(s)
             if inl is not None:
                 out = []
                 for t in inl:
+                    t._from_inline = True
                     out.extend(self.stmt(t))
                 return out
         if isinstance(s, (ast.FunctionDef, ast.AsyncFunctionDef)):
-            inner = Normaliser(self.funcs, self.depth)
+            if self.directional and not self.is_new(s.name):
+                return [s]
+            inner = Normaliser(self.funcs, self.depth, self.keep_ids)
             g = inner.function(s)
+            self.inlined |= inner.inlined
             self.funcs[s.name] = s
             if not g.decorator_list and len(g.body) == 1 and isinstance(g.body[0], ast.Return) and g.body[0].value is not None \
                     and not g.args.vararg and not g.args.kwarg:
@@ -689,19 +931,28 @@ class Normaliser:
             return [g]
         if isinstance(s, ast.For):
             s.body = self.block(s.body)
+            if not self.directional or self.opts.get('continue_to_else'):
+                s.body = self.loop_continue_to_else(s.body)
             s.orelse = self.block(s.orelse)
             vals = _range_literal(s.iter)
-            if vals is not None and isinstance(s.target, ast.Name) and not s.orelse and not _has_exit(s.body) \
-                    and s.target.id not in _bound_in(ast.Module(body=s.body, type_ignores=[])):
-                out = []
-                for v in vals:
-                    for b in s.body:
-                        c = _Subst({s.target.id: ast.Constant(v)}).visit(copy.deepcopy(b))
-                        out.append(_Fold().visit(c))
-                return out
+            if vals is not None and isinstance(s.target, ast.Name):
+                items = [{s.target.id: ast.Constant(v)} for v in vals]
+            else:
+                items = _literal_items(s.iter, s.target)
+            if items is not None and not s.orelse and not _has_exit(s.body):
+                tnames = set().union(*[set(m) for m in items]) if items else set()
+                if all(self.is_new(t) for t in tnames) and not (tnames & _bound_in(ast.Module(body=s.body, type_ignores=[]))):
+                    out = []
+                    for m in items:
+                        for b in s.body:
+                            c = _Subst(m).visit(copy.deepcopy(b))
+                            out.append((_LightFold() if self.directional else _Fold()).visit(c))
+                    return out
             return [s]
         if isinstance(s, ast.While):
             s.body = self.block(s.body)
+            if not self.directional or self.opts.get('continue_to_else'):
+                s.body = self.loop_continue_to_else(s.body)
             s.orelse = self.block(s.orelse)
             return [s]
         if isinstance(s, ast.If):
@@ -721,10 +972,23 @@ class Normaliser:
         if isinstance(s, ast.Assign) and len(s.targets) == 1 and isinstance(s.targets[0], ast.Tuple) and isinstance(s.value, ast.Tuple) \
                 and len(s.targets[0].elts) == len(s.value.elts) and all(isinstance(t, ast.Name) for t in s.targets[0].elts):
             tn = {t.id for t in s.targets[0].elts}
-            if not (tn & names_loaded(s.value)) and len(tn) == len(s.targets[0].elts):
+            if not (tn & names_loaded(s.value)) and len(tn) == len(s.targets[0].elts) and (not self.directional or getattr(s, '_from_inline', False)):
                 return [ast.Assign(targets=[ast.Name(id=t.id, ctx=ast.Store())], value=v) for t, v in zip(s.targets[0].elts, s.value.elts)]
+        if isinstance(s, ast.Expr) and isinstance(s.value, ast.Call) and isinstance(s.value.func, ast.Attribute) and s.value.func.attr == 'append' \
+                and isinstance(s.value.func.value, ast.Name) and len(s.value.args) == 1 and not s.value.keywords \
+                and s.value.func.value.id in self.opts.get('list_names', ()):
+            return [ast.AugAssign(target=ast.Name(id=s.value.func.value.id, ctx=ast.Store()), op=ast.Add(), value=ast.List(elts=[s.value.args[0]], ctx=ast.Load()))]
         if isinstance(s, ast.AnnAssign) and s.value is not None and isinstance(s.target, ast.Name):
             return [ast.Assign(targets=[s.target], value=s.value)]
+        if isinstance(s, ast.AugAssign) and isinstance(s.target, ast.Name) and not is_pure(s.value) and not self.directional:
+            Normaliser._fresh += 1
+            tmp = f'tmp__{Normaliser._fresh}'
+            return [ast.Assign(targets=[ast.Name(id=tmp, ctx=ast.Store())], value=s.value),
+                    ast.AugAssign(target=s.target, op=s.op, value=ast.Name(id=tmp, ctx=ast.Load()))]
+        if isinstance(s, ast.AugAssign) and isinstance(s.target, ast.Subscript) and is_pure(s.target) and not self.directional:
+            load = copy.deepcopy(s.target)
+            load.ctx = ast.Load()
+            return [ast.Assign(targets=[s.target], value=ast.BinOp(left=load, op=s.op, right=s.value))]
         return [s]
 
     def defaults_to_ifelse(self, stmts):
@@ -762,7 +1026,38 @@ class Normaliser:
     def function(self, fn):
         fn = copy.deepcopy(fn)
         self.caller_bound = _bound_in(fn) | {a.arg for a in fn.args.posonlyargs + fn.args.args + fn.args.kwonlyargs}
+        binds = {}
+        for n in ast.walk(fn):
+            if isinstance(n, ast.Assign):
+                for t in n.targets:
+                    if isinstance(t, ast.Name):
+                        binds.setdefault(t.id, []).append(n.value)
+            elif isinstance(n, (ast.For, ast.With, ast.AnnAssign)) or isinstance(n, ast.arg):
+                for x in ast.walk(n.target if hasattr(n, 'target') else n) if not isinstance(n, ast.With) else []:
+                    if isinstance(x, ast.Name) and isinstance(x.ctx, ast.Store):
+                        binds.setdefault(x.id, []).append(None)
+        params_ = {a.arg for a in fn.args.posonlyargs + fn.args.args + fn.args.kwonlyargs}
+        lists = {k for k, vs in binds.items() if k not in params_ and vs and all(isinstance(v, (ast.List, ast.ListComp)) for v in vs)}
+        if not self.directional:
+            self.opts['list_names'] = lists
+        else:
+            self.opts['list_names'] = lists & set(self.opts.get('ref_list_names', ()))
         fn.body = self.block(fn.body)
+        self.version_straightline(fn)
+        if self.directional:
+            for _ in range(6):
+                before = ast.dump(fn)
+                self.al = Aliases(fn)
+                self.forward_substitute(fn)
+                self.coalesce(fn)
+                self.adjacent_temps(fn)
+                fn = _Beta().visit(fn)
+                fn = _LightFold().visit(fn)
+                self.drop_dead(fn)
+                if ast.dump(fn) == before:
+                    break
+            self.reaug(fn)
+            return fn
         fn = _Fold().visit(fn)
         self.split_webs(fn)
         for _ in range(6):
@@ -810,7 +1105,8 @@ class Normaliser:
 
         def candidate(s):
             return isinstance(s, ast.Assign) and len(s.targets) == 1 and isinstance(s.targets[0], ast.Name) and counts.get(s.targets[0].id) == 1 \
-                and s.targets[0].id not in params and s.targets[0].id not in nested_bound and is_pure(s.value) and s.targets[0].id not in names_loaded(s.value)
+                and s.targets[0].id not in params and s.targets[0].id not in nested_bound and is_pure(s.value) and s.targets[0].id not in names_loaded(s.value) \
+                and self.is_new(s.targets[0].id) and (not self.directional or _cheap(s.value))
 
         def uses_in(node, env, in_closure):
             """Record for every Load of a candidate name whether a valid definition reaches it."""
@@ -906,6 +1202,84 @@ class Normaliser:
         _remove_stmts(fn, drop)
         sub = _Subst(values)
         fn.body = [sub.visit(s) for s in fn.body]
+
+    # ---- R21
+    def version_straightline(self, fn):
+        params = {a.arg for a in fn.args.posonlyargs + fn.args.args + fn.args.kwonlyargs}
+        total = {}
+        for n in ast.walk(fn):
+            if isinstance(n, ast.Name):
+                total[n.id] = total.get(n.id, 0) + 1
+        nested = set()
+        for n in ast.walk(fn):
+            if isinstance(n, (ast.FunctionDef, ast.AsyncFunctionDef, ast.Lambda)) and n is not fn:
+                nested |= {x.id for x in ast.walk(n) if isinstance(x, ast.Name)}
+
+        def blocks(node):
+            for f in ('body', 'orelse', 'finalbody'):
+                blk = getattr(node, f, None)
+                if isinstance(blk, list) and blk and isinstance(blk[0], ast.stmt):
+                    yield blk
+                    for st in blk:
+                        if not isinstance(st, (ast.FunctionDef, ast.AsyncFunctionDef, ast.ClassDef)):
+                            yield from blocks(st)
+            for h in getattr(node, 'handlers', []) or []:
+                yield from blocks(h)
+        allblocks = list(blocks(fn))
+        perblock = []
+        for blk in allblocks:
+            defs = {}
+            for i, st in enumerate(blk):
+                if isinstance(st, ast.Assign) and len(st.targets) == 1 and isinstance(st.targets[0], ast.Name):
+                    defs.setdefault(st.targets[0].id, []).append(i)
+            perblock.append(defs)
+        names = set().union(*[set(d) for d in perblock]) if perblock else set()
+        serial = [0]
+        for x in names:
+            if x in params or x in nested or not self.is_new(x):
+                continue
+            homes = [(blk, d[x]) for blk, d in zip(allblocks, perblock) if x in d]
+            if len(homes) == 1 and len(homes[0][1]) < 2:
+                continue
+            ok, inside_total = True, 0
+            for blk, idx in homes:
+                inside = sum(1 for st in blk for n in ast.walk(st) if isinstance(n, ast.Name) and n.id == x)
+                stores = sum(1 for st in blk for n in ast.walk(st) if isinstance(n, ast.Name) and n.id == x and isinstance(n.ctx, (ast.Store, ast.Del)))
+                first_mention = next(i for i, st in enumerate(blk) if any(isinstance(n, ast.Name) and n.id == x for n in ast.walk(st)))
+                if stores != len(idx) or first_mention != idx[0] or _reads(blk[idx[0]].value, x):
+                    ok = False
+                    break
+                inside_total += inside
+            # the home blocks must be disjoint (no home nested in another) and hold every occurrence
+            if not ok or inside_total != total.get(x, 0):
+                continue
+            for blk, idx in homes:
+                ver = None
+                for i, st in enumerate(blk):
+                    if i in idx:
+                        for n in ast.walk(st.value):
+                            if isinstance(n, ast.Name) and n.id == x and ver is not None:
+                                n.id = ver
+                        serial[0] += 1
+                        ver = f'{x}#{serial[0]}'
+                        st.targets[0].id = ver
+                    elif ver is not None:
+                        for n in ast.walk(st):
+                            if isinstance(n, ast.Name) and n.id == x:
+                                n.id = ver
+            total[x] = 0
+
+    def reaug(self, fn):
+        """Directional mode: `T = T op v` (T a subscript) written back as `T op= v`, the form the reviewed code uses."""
+        class _A(ast.NodeTransformer):
+            def visit_Assign(self_, n):
+                if len(n.targets) == 1 and isinstance(n.targets[0], ast.Subscript) and isinstance(n.value, ast.BinOp) and is_pure(n.targets[0]):
+                    l = copy.deepcopy(n.targets[0])
+                    l.ctx = ast.Load()
+                    if ast.dump(l) == ast.dump(n.value.left):
+                        return ast.AugAssign(target=n.targets[0], op=n.value.op, value=n.value.right)
+                return n
+        _A().visit(fn)
 
     # ---- R18
     def split_webs(self, fn):
@@ -1004,6 +1378,48 @@ class Normaliser:
                 for n in groups[k]:
                     n.id = f'{x}@{k}'
 
+    # ---- R28
+    def adjacent_temps(self, fn):
+        loads = {}
+        stores = {}
+        for n in ast.walk(fn):
+            if isinstance(n, ast.Name):
+                d = loads if isinstance(n.ctx, ast.Load) else stores
+                d[n.id] = d.get(n.id, 0) + 1
+        params = {a.arg for a in fn.args.posonlyargs + fn.args.args + fn.args.kwonlyargs}
+        changed = [False]
+
+        def do_block(blk):
+            i = 0
+            while i < len(blk) - 1:
+                s_, nxt = blk[i], blk[i + 1]
+                if isinstance(s_, ast.Assign) and len(s_.targets) == 1 and isinstance(s_.targets[0], ast.Name):
+                    t = s_.targets[0].id
+                    if stores.get(t) == 1 and loads.get(t) == 1 and t not in params and self.is_new(t) and not is_pure(s_.value) \
+                            and isinstance(nxt, (ast.Assign, ast.AugAssign, ast.Expr, ast.Return)) and _reads(nxt, t) \
+                            and not any(isinstance(n, (ast.Call, ast.Lambda, ast.Yield, ast.Await)) for n in ast.walk(nxt)):
+                        blk[i + 1] = _Subst({t: s_.value}).visit(nxt)
+                        del blk[i]
+                        changed[0] = True
+                        continue
+                for f in ('body', 'orelse', 'finalbody'):
+                    sub = getattr(s_, f, None)
+                    if isinstance(sub, list) and sub and isinstance(sub[0], ast.stmt) and not isinstance(s_, (ast.FunctionDef, ast.AsyncFunctionDef)):
+                        do_block(sub)
+                for h in getattr(s_, 'handlers', []) or []:
+                    do_block(h.body)
+                i += 1
+            if blk:
+                s_ = blk[-1]
+                for f in ('body', 'orelse', 'finalbody'):
+                    sub = getattr(s_, f, None)
+                    if isinstance(sub, list) and sub and isinstance(sub[0], ast.stmt) and not isinstance(s_, (ast.FunctionDef, ast.AsyncFunctionDef)):
+                        do_block(sub)
+                for h in getattr(s_, 'handlers', []) or []:
+                    do_block(h.body)
+        do_block(fn.body)
+        return changed[0]
+
     # ---- R15
     def coalesce(self, fn):
         counts, loads_total = {}, {}
@@ -1015,6 +1431,9 @@ class Normaliser:
                     counts[n.id] = counts.get(n.id, 0) + 1
         params = {a.arg for a in fn.args.posonlyargs + fn.args.args + fn.args.kwonlyargs}
         changed = [False]
+        if not any(isinstance(n, ast.Assign) and len(n.targets) == 1 and isinstance(n.value, ast.Name) and counts.get(n.value.id) == 1
+                   and n.value.id not in params for n in ast.walk(fn)):
+            return False
 
         def do_block(blk):
             i = 0
@@ -1029,17 +1448,20 @@ class Normaliser:
                 if isinstance(s_, ast.Assign) and len(s_.targets) == 1 and isinstance(s_.value, ast.Name):
                     t, T = s_.value.id, s_.targets[0]
                     okT = isinstance(T, ast.Name) or (isinstance(T, ast.Subscript) and isinstance(T.value, ast.Name) and is_pure(T.slice))
-                    if okT and counts.get(t) == 1 and t not in params and not (isinstance(T, ast.Name) and T.id == t):
+                    if okT and counts.get(t) == 1 and t not in params and not (isinstance(T, ast.Name) and T.id == t) and self.is_new(t):
                         # definition of t earlier in this very block
                         d = next((j for j in range(i) if isinstance(blk[j], ast.Assign) and len(blk[j].targets) == 1
                                   and isinstance(blk[j].targets[0], ast.Name) and blk[j].targets[0].id == t), None)
                         if d is not None:
                             between = blk[d + 1:i]
-                            uses_between = sum(1 for st in between for n in ast.walk(st) if isinstance(n, ast.Name) and n.id == t)
+                            uses_between = sum(_name_counts(st).get(t, 0) for st in between)
+                            if loads_total.get(t, 0) != uses_between + 1:
+                                i += 1
+                                continue
                             nested_use = any(isinstance(n, (ast.FunctionDef, ast.Lambda)) and any(isinstance(x, ast.Name) and x.id == t for x in ast.walk(n))
                                              for st in between for n in ast.walk(st))
                             tnames = {n.id for n in ast.walk(T) if isinstance(n, ast.Name)}
-                            mentions_T = any(isinstance(n, ast.Name) and n.id in tnames for st in between for n in ast.walk(st)) or \
+                            mentions_T = any(_name_counts(st).get(nm, 0) for st in between for nm in tnames) or \
                                 any(isinstance(n, ast.Name) and n.id in tnames for n in ast.walk(blk[d].value))
                             if loads_total.get(t, 0) == uses_between + 1 and not nested_use and not mentions_T:
                                 repl = copy.deepcopy(T)
@@ -1072,10 +1494,11 @@ class Normaliser:
                 loads[n.id] = loads.get(n.id, 0) + 1
         dead = set()
         for n in ast.walk(fn):
-            if isinstance(n, (ast.FunctionDef, ast.AsyncFunctionDef)) and n is not fn and n.name not in loads:
+            if isinstance(n, (ast.FunctionDef, ast.AsyncFunctionDef)) and n is not fn and n.name not in loads and self.is_new(n.name):
                 dead.add(id(n))
         for n in ast.walk(fn):
-            if isinstance(n, ast.Assign) and len(n.targets) == 1 and isinstance(n.targets[0], ast.Name) and n.targets[0].id not in loads and is_pure(n.value):
+            if isinstance(n, ast.Assign) and len(n.targets) == 1 and isinstance(n.targets[0], ast.Name) and n.targets[0].id not in loads and is_pure(n.value) \
+                    and self.is_new(n.targets[0].id):
                 dead.add(id(n))
         _remove_stmts(fn, dead)
 
@@ -1095,7 +1518,7 @@ class Normaliser:
         if n < 2:
             return blk
         efs = [stmt_effects(s, self.al) for s in blk]
-        keys = [ast.dump(s) for s in blk]
+        keys = [_masked_dump(s) for s in blk]
 
         barrier = [any(isinstance(x, (ast.Return, ast.Raise, ast.Break, ast.Continue, ast.Assert, ast.Yield, ast.YieldFrom)) for x in ast.walk(st)) for st in blk]
 
@@ -1115,6 +1538,37 @@ class Normaliser:
             done.add(j)
             order.append(j)
         return [blk[j] for j in order]
+
+
+_NC = {}
+
+
+def _name_counts(st):
+    k = id(st)
+    hit = _NC.get(k)
+    if hit is None or hit[0] is not st:
+        c = {}
+        for n in ast.walk(st):
+            if isinstance(n, ast.Name):
+                c[n.id] = c.get(n.id, 0) + 1
+        hit = (st, c)
+        _NC[k] = hit
+        if len(_NC) > 20000:
+            _NC.clear()
+    return hit[1]
+
+
+def _masked_dump(node):
+    """Structure of a statement with every identifier masked (ordering key that does not depend on local names)."""
+    if isinstance(node, ast.Name):
+        return 'N'
+    if isinstance(node, ast.arg):
+        return 'A'
+    if isinstance(node, ast.AST):
+        return '(' + type(node).__name__ + ' ' + ' '.join(_masked_dump(getattr(node, f, None)) for f in node._fields if f not in ('ctx', 'type_comment', 'kind')) + ')'
+    if isinstance(node, list):
+        return '[' + ' '.join(_masked_dump(x) for x in node) + ']'
+    return repr(node)
 
 
 def _reads(e, x):
@@ -1238,9 +1692,51 @@ def normal_form(fn, funcs=None):
     return alpha_dump(Normaliser(funcs).function(fn))
 
 
+def _elif_count(fn):
+    return sum(1 for n in ast.walk(fn) if isinstance(n, ast.If) and len(n.orelse) == 1 and isinstance(n.orelse[0], ast.If))
+
+
+def _append_count(fn):
+    return sum(1 for n in ast.walk(fn) if isinstance(n, ast.Call) and isinstance(n.func, ast.Attribute) and n.func.attr == 'append')
+
+
+def toward_reviewed(cur_fn, ref_fn, cur_only=None):
+    """Directional canonicalisation: the current function with its new locals, new helpers and new constant
+    loops eliminated (sound rewrites R2 R3 R6 R7 R8 R9 R13 R15 R20 only).  Returns (FunctionDef, inlined helper names)
+    or (None, set()) when nothing changes."""
+    ref_ids = set()
+    for n in ast.walk(ref_fn):
+        if isinstance(n, ast.Name):
+            ref_ids.add(n.id)
+        elif isinstance(n, ast.arg):
+            ref_ids.add(n.arg)
+        elif isinstance(n, (ast.FunctionDef, ast.AsyncFunctionDef)):
+            ref_ids.add(n.name)
+    nz = Normaliser(cur_only, 0, ref_ids)
+    count = lambda f, T: sum(1 for n in ast.walk(f) if isinstance(n, T))
+    # rewrites that undo a restructuring are only applied when the reviewed function has the other shape
+    nz.opts['continue_to_else'] = False
+    nz.opts['split_elif'] = False
+    rl = set()
+    for n in ast.walk(ref_fn):
+        if isinstance(n, ast.Assign) and len(n.targets) == 1 and isinstance(n.targets[0], ast.Name) and isinstance(n.value, ast.List) and not n.value.elts:
+            rl.add(n.targets[0].id)
+    nz.opts['ref_list_names'] = rl if count(cur_fn, ast.ListComp) > count(ref_fn, ast.ListComp) or _append_count(cur_fn) > _append_count(ref_fn) else set()
+    out = nz.function(cur_fn)
+    if ast.dump(out) == ast.dump(Normaliser._strip_copy(cur_fn)):
+        return None, set()
+    return out, nz.inlined
+
+
+_NF_CACHE = {}
+
+
 def equivalent(cur_fn, ref_fn, cur_only=None, ref_only=None):
     """cur_only / ref_only: plain module-level functions that exist on one side only (candidates for R13)."""
     try:
-        return normal_form(cur_fn, cur_only) == normal_form(ref_fn, ref_only)
+        key = (ast.dump(ref_fn), tuple(sorted((ref_only or {}))))
+        if key not in _NF_CACHE:
+            _NF_CACHE[key] = normal_form(ref_fn, ref_only)
+        return normal_form(cur_fn, cur_only) == _NF_CACHE[key]
     except RecursionError:
         return False
